@@ -150,7 +150,7 @@ pub fn audit(engine: &Engine) -> i32 {
             std::fs::write(root.join("src/sub/b.lalrpop"), &text).unwrap();
             let sout = ctx.world.base.join("strace.out");
             let _ = std::fs::remove_file(&sout);
-            let mut plan = format!("root={};trace={};hashseed={}", root.display(), ctx.world.trace().display(), spec.hashseed);
+            let mut plan = format!("root={};trace={};hashseed={};clock=1600000000;pid=4242", root.display(), ctx.world.trace().display(), spec.hashseed);
             for f in &spec.faults {
                 plan.push_str(";at=");
                 plan.push_str(f);
